@@ -55,6 +55,10 @@ def build_body(body: Dict[str, Any], req_wire: Dict[str, Any], is_sse: bool) -> 
     rid = req_wire.get("id", "none")
     kind = body["kind"]
     payload = body.get("payload", {"ok": True, "t": "é\U0001F600"})
+    if body.get("sse", {}).get("line_seps"):
+        # characters that some "split into lines" routines treat as line ends, raw inside JSON strings (legal JSON, and
+        # no line terminators of the event-stream format)
+        payload = dict(payload, ls="a\u2028b\u2029c\u0085d\x0bf\x0cg\x1ch")
     msgs: List[Any]
     if kind == "result":
         msgs = [{"jsonrpc": "2.0", "id": rid, "result": payload}]
@@ -379,7 +383,8 @@ BODY_KINDS = ["result", "error", "batch", "notifs+response", "wrong_id", "empty"
 SSE_ENCODINGS: List[Dict[str, Any]] = [
     {}, {"event": None}, {"space": False}, {"eol": "\r\n"}, {"comment": True}, {"id_field": "7", "retry": 1000}, {"split_data": True}, {"event_after_data": True},
     {"event": None, "space": False, "eol": "\r\n"}, {"noise": True}, {"unterminated": True}, {"ensure_ascii": False},
-] + [{"event": ev, "blocks": [[pos, k]]} for k in NOISE_KINDS for pos in (0, 9) for ev in (None, "message")]
+] + [{"event": ev, "blocks": [[pos, k]]} for k in NOISE_KINDS for pos in (0, 9) for ev in (None, "message")] + [
+    {"ensure_ascii": False, "line_seps": True}, {"ensure_ascii": False, "line_seps": True, "eol": "\r\n"}, {"ensure_ascii": False, "line_seps": True, "event": None, "space": False}]
 
 
 def job_matrix(col: Collector, seed: int, tier: str, shard: int, nshards: int) -> None:
@@ -438,6 +443,8 @@ def behaviour(draw):
             enc["id_field"] = draw(st.sampled_from(["1", "evt-9", ""]))
         if draw(st.integers(0, 3)) == 0:
             enc["ensure_ascii"] = False
+            if draw(st.booleans()):
+                enc["line_seps"] = True
         if draw(st.integers(0, 2)) == 0:
             enc["blocks"] = draw(st.lists(st.tuples(st.integers(0, 4), st.sampled_from(NOISE_KINDS)).map(list), min_size=1, max_size=3))
         body["sse"] = enc
